@@ -37,13 +37,33 @@ def fmt(text, pyproject):
     return black.format_str(text, mode=black_mode(pyproject))
 
 
+def gen_shrink_case(rng, i):
+    """a formatter-clean file whose snapshot collection is exploded over several lines and shrinks so that it fits on one line again
+    (what the formatter then does depends on its options, e.g. skip-magic-trailing-comma)"""
+    n = rng.randint(18, 30)
+    old = [rng.randint(100000, 999999) for _ in range(n)]
+    new = old[: rng.randint(1, 3)]
+    kind = rng.choice(["list", "tuple", "dict"])
+    if kind == "dict":
+        olds, news = repr({f"k{j}": v for j, v in enumerate(old)}), repr({f"k{j}": v for j, v in enumerate(new)})
+    elif kind == "tuple":
+        olds, news = repr(tuple(old)), repr(tuple(new))
+    else:
+        olds, news = repr(old), repr(new)
+    src = f"from inline_snapshot import snapshot\n\n\ndef test_a():\n    assert {news} == snapshot({olds})\n"
+    return {"source": src, "pyproject": PYPROJECTS[i % len(PYPROJECTS)], "flags": ("fix",), "setup": "black", "make_clean": True, "sites": []}
+
+
 def gen_case(rng, i):
+    if i % 8 == 7:
+        return gen_shrink_case(rng, i // 8)
     opts = {"p_noncanon": 0.3, "p_same": 0.2, "p_missing": 0.3, "comments": True, "maxdepth": 4 if i % 3 == 0 else 3}
     p = proggen.gen_program(rng, rich=(i % 2 == 0), style="assert", nsites=rng.randint(1, 5), opts=opts, layout={"per_test": rng.choice([1, 2, 4])})
     p["pyproject"] = PYPROJECTS[i % len(PYPROJECTS)]
     p["flags"] = rng.choice(proggen.flag_subsets()[1:])
     p["setup"] = ["black", "black", "black", "fmtcmd", "noblack", "black_raises", "fmtcmd_fails"][i % 7]
     p["make_clean"] = i % 3 != 2
+    p["strip_final_newline"] = p["make_clean"] and i % 5 == 1      # formatted exactly as black would, except for the missing final newline: NOT clean
     return p
 
 
@@ -54,6 +74,8 @@ def run_case(p):
             src = fmt(src, p["pyproject"])
         except Exception:  # noqa
             pass
+    if p.get("strip_final_newline"):
+        src = src.rstrip("\n")
     kw = {"pyproject": p["pyproject"]}
     if p["setup"] == "fmtcmd":
         kw["format_command"] = "/venv/bin/python -m black -q -"
@@ -148,7 +170,7 @@ def run(ctx: Ctx):
         unstable += bool(o.get("black_unstable"))
         why = judge(p, o)
         if why:
-            ctx.report("C20 oracle: " + why, {"kind": "case", "source": p["source"], "flags": p["flags"], "setup": p["setup"], "pyproject": p["pyproject"], "make_clean": p["make_clean"],
+            ctx.report("C20 oracle: " + why, {"kind": "case", "source": p["source"], "flags": p["flags"], "setup": p["setup"], "pyproject": p["pyproject"], "make_clean": p["make_clean"], "strip_final_newline": p.get("strip_final_newline"),
                                               "after": o["after"][-1500:]})
             continue
         if o["raw"] is not None and o["new_code"] is not None and "black_error" not in o and not o["session_exc"]:
@@ -170,7 +192,8 @@ def run(ctx: Ctx):
 
 def replay(ctx: Ctx, data):
     c = data["case"]
-    p = {"source": c["source"], "flags": tuple(c["flags"]), "setup": c["setup"], "pyproject": c["pyproject"], "make_clean": c["make_clean"]}
+    p = {"source": c["source"], "flags": tuple(c["flags"]), "setup": c["setup"], "pyproject": c["pyproject"], "make_clean": c["make_clean"],
+         "strip_final_newline": c.get("strip_final_newline")}
     o = run_case(p)
     print(o["after"][-1200:], o.get("clean_before"), o.get("clean_after"))
     return judge(p, o) is None
